@@ -912,7 +912,19 @@ fn tuple_homes(parts: Vec<Vec<Type>>) -> Vec<Type> {
         }
         out = next;
     }
-    out.into_iter().map(Type::Tuple).collect()
+    // a Rust tuple may be bound to a CQL tuple with more fields (the prefix is written, the rest is null):
+    // every exact-arity home also with one and with two extra fields
+    let mut all = Vec::new();
+    for l in out {
+        let mut l1 = l.clone();
+        l1.push(nat(Native::Text));
+        let mut l2 = l1.clone();
+        l2.push(Type::List(Box::new(nat(Native::Int))));
+        all.push(Type::Tuple(l));
+        all.push(Type::Tuple(l1));
+        all.push(Type::Tuple(l2));
+    }
+    all
 }
 fn tuple_rel_ser(t: &Type, parts: &[fn(&Type) -> Rel]) -> Rel {
     match t {
@@ -979,6 +991,31 @@ macro_rules! tuple_carrier {
 tuple_carrier!(1; A 0);
 tuple_carrier!(2; A 0, B 1);
 tuple_carrier!(3; A 0, B 1, C 2);
+tuple_carrier!(4; A 0, B 1, C 2, D 3);
+impl Carrier for () {
+    fn name() -> String {
+        "()".to_string()
+    }
+    fn home_types() -> Vec<Type> {
+        vec![Type::Tuple(vec![])]
+    }
+    fn rel_ser(t: &Type) -> Rel {
+        tuple_rel_ser(t, &[])
+    }
+    fn rel_de(t: &Type) -> Rel {
+        tuple_rel_de(t, &[])
+    }
+    fn from_ref(t: &Type, v: &Value) -> Option<Self> {
+        match (t, v) {
+            (Type::Tuple(_), Value::Tuple(xs)) if xs.is_empty() => Some(()),
+            _ => None,
+        }
+    }
+    fn to_ref(&self, _t: &Type) -> Value {
+        Value::Tuple(vec![])
+    }
+    fn witness(_t: &Type) -> Self {}
+}
 
 // ------------------------------------------------------------------------------------------------
 // error classification
@@ -1134,7 +1171,19 @@ where
     let bytes = c01_ser_part(&c, t, &ct)?;
     st.cases.fetch_add(1, Ordering::Relaxed);
     if C::rel_de(t) != Rel::Accept {
-        return Ok(true); // serialization-only pairing (e.g. Rust tuple shorter than the CQL tuple)
+        // serialization-only pairing (a Rust tuple shorter than the CQL tuple): the prefix encoding was compared
+        // above; it must come back through the dynamic type padded with nulls
+        let logical = c.to_ref(t);
+        if let Ok(want) = refv::canon(t, &logical) {
+            let body = unframe(&bytes).map_err(|e| Failure { check: "static-encode", what: format!("{} into {t}: malformed cell: {e}", C::name()) })?;
+            match catch(AssertUnwindSafe(|| deser_dynamic(&ct, body))) {
+                Ok(Ok((got, _))) if got == want => {
+                    st.padded_decodes.fetch_add(1, Ordering::Relaxed);
+                }
+                other => return fail("static-prefix-roundtrip", format!("{} = {} bound to {t} -> {} decodes (dynamic type) to {other:?}, expected {}", C::name(), values::brief(&logical), hex_brief(&bytes), values::brief(&want))),
+            }
+        }
+        return Ok(true);
     }
     let got = decode_as::<C>(&ct, &bytes, t)?;
     compare_back(&C::name(), t, &bytes, &c.key(t), got)?;
